@@ -568,8 +568,10 @@ class Cell(Numbered_MCNP_Object):
                 new_deleting_dict[dead_surface] = new_surface
         if len(new_deleting_dict) > 0:
             self.geometry.remove_duplicate_surfaces(new_deleting_dict)
-            for dead_surface in new_deleting_dict:
+            for dead_surface, new_surface in new_deleting_dict.items():
                 self.surfaces.remove(dead_surface)
+                if new_surface not in self.surfaces:
+                    self.surfaces.append(new_surface)
 
     def _update_values(self):
         if self.material:
